@@ -173,6 +173,32 @@ M('c16-url-plus-dropped', 'C16', 'src/utilities/qencode.c',
 M('c16-x2c-casefold', 'C16', 'src/internal/qinternal.c',
   "(hex_low >= 'A' ? ((hex_low & 0xdf) - 'A') + 10", "(hex_low >= 'A' ? (hex_low - 'A') + 10", 'TB7', '_q_x2c', 'low nibble not case-folded')
 
+# ---- C07 -------------------------------------------------------------------------------------
+M('c07-slot-pointer-member', 'C07', 'include/qlibc/containers/qhasharr.h',
+  "    int link;          /*!< next link */", "    int link;          /*!< next link */\n    struct qhasharr_slot_s *nextp;",
+  'I1', None, 'pointer member added to the slot')
+M('c07-attach-memset', 'C07', 'src/containers/qhasharr.c',
+  "        // Set memory.\n        memset((void *) tbldata, 0, memsize);\n        tbldata->maxslots = maxslots;\n        tbldata->usedslots = 0;\n        tbldata->num = 0;\n    }\n",
+  "        // Set memory.\n        memset((void *) tbldata, 0, memsize);\n        tbldata->maxslots = maxslots;\n    }\n    tbldata->usedslots = 0;\n    tbldata->num = 0;\n",
+  'I3', 'qhasharr', 'counters reset also in attach mode')
+M('c07-datasize-knob-300', 'C07', 'include/qlibc/containers/qhasharr.h',
+  "#define Q_HASHARR_DATASIZE (32)", "#define Q_HASHARR_DATASIZE (300)", 'I4', 'put_data', 'in-slot value size no longer fits the uint8_t length field')
+M('c07-name-clamp-off-by-one', 'C07', 'src/containers/qhasharr.c',
+  "(namesize < Q_HASHARR_NAMESIZE) ? namesize : Q_HASHARR_NAMESIZE);", "(namesize < Q_HASHARR_NAMESIZE) ? namesize : Q_HASHARR_NAMESIZE + 1);",
+  'I4', 'put_data', 'key prefix copy one byte past the name field')
+M('c07-ext-clamp-dropped', 'C07', 'src/containers/qhasharr.c',
+  "            if (copysize > sizeof(struct Q_HASHARR_SLOT_EXT)) {\n                copysize = sizeof(struct Q_HASHARR_SLOT_EXT);\n            }\n", "",
+  'I4', 'put_data', 'extension block copy unclamped')
+M('c07-counter-in-remove-slot', 'C07', 'src/containers/qhasharr.c',
+  "    tblslots[idx].count = 0;\n    return true;", "    tblslots[idx].count = 0;\n    tbl->data->usedslots--;\n    return true;",
+  'I5', 'remove_slot', 'used-slot counter also written by remove_slot (moves would double count)')
+M('c07-move-no-remove', 'C07', 'src/containers/qhasharr.c',
+  "        copy_slot(tbl, idx, hash);\n        remove_slot(tbl, hash);\n", "        copy_slot(tbl, idx, hash);\n        tblslots[hash].datasize = 0;\n",
+  'I6', 'qhasharr_put_by_obj', 'moved slot not released')
+M('c07-promote-no-backlink', 'C07', 'src/containers/qhasharr.c',
+  "        tblslots[idx].count = backupcount - 1;  // adjust collision counter\n        if (tblslots[idx].link != -1) {\n            tblslots[tblslots[idx].link].hash = idx;\n        }\n",
+  "        tblslots[idx].count = backupcount - 1;  // adjust collision counter\n", 'I6', 'qhasharr_remove_by_idx', 'back-link of the value chain not repaired after promotion')
+
 
 def run_selftest(prop, rep, rule_fn, config='cmake-release'):
     """Apply every mutant of `prop` to a scratch copy, run rule_fn(prog, report) on it, and
